@@ -2,10 +2,12 @@ package main
 
 import (
 	"fmt"
+	"io"
 	"os"
 	"path/filepath"
 	"strings"
 	"sync/atomic"
+	"syscall"
 	"time"
 
 	"github.com/akrennmair/updog/verifharness/gen"
@@ -182,6 +184,54 @@ func runC19(r *vf.Run) {
 			outs[mode] = out
 			r.Count("records_ingested", int64(len(csv.Records)))
 		}
+		// the same CSV arriving through a named pipe (zcat x.csv.gz | updog create ... /dev/stdin): nothing can be re-read
+		// or seeked, the result must be the same index
+		if idn := len(ids); (len(c.id)+idn)%3 == 0 || !strings.HasPrefix(c.id, "rnd") {
+			big := len(c.id)%2 == 0
+			mode := []string{"normal", "big"}[map[bool]int{false: 0, true: 1}[big]]
+			fifo := filepath.Join(sub, "in.fifo")
+			pout := filepath.Join(sub, "piped.updog")
+			if err := syscall.Mkfifo(fifo, 0o600); err == nil {
+				{
+					done := make(chan struct{})
+					go func() {
+						defer close(done)
+						// blocks until the command has opened the pipe for reading (what is written before a reader exists
+						// and closed again is lost), so the write end is opened the ordinary, blocking way
+						wf, err := os.OpenFile(fifo, os.O_WRONLY, 0)
+						if err != nil {
+							return
+						}
+						_, _ = wf.Write([]byte(csv.Text))
+						wf.Close()
+					}()
+					res := runCreateOpts(r, big, false, pout, fifo)
+					// a writer that never met its reader (the command failed before opening its input) is released
+					if rf, err := os.OpenFile(fifo, os.O_RDONLY|syscall.O_NONBLOCK, 0); err == nil {
+						go func() { _, _ = io.Copy(io.Discard, rf) }()
+						<-done
+						rf.Close()
+					} else {
+						<-done
+					}
+					r.Eval(1)
+					r.Count("runs_with_input_from_a_pipe", 1)
+					w := map[string]any{"mode": mode, "records": len(csv.Records), "input": "named pipe"}
+					switch {
+					case res.TimedOut:
+						hangVerdict(r, id+"/pipe", res, w)
+					case res.Code != 0:
+						w["exit_code"], w["stderr"] = res.Code, head(res.Stderr, 800)
+						r.Violation(id+"/pipe", "create-failed-on-well-formed-csv", w)
+					default:
+						if d := compareRaw(readRaw(outs[mode]), readRaw(pout)); d != "" {
+							w["difference"] = d
+							r.Violation(id+"/pipe", "index-differs-from-csv", w)
+						}
+					}
+				}
+			}
+		}
 		// normal and --big are observationally identical: same bitmaps, same counter
 		r.Eval(1)
 		if d := compareRaw(readRaw(outs["normal"]), readRaw(outs["big"])); d != "" {
@@ -243,6 +293,22 @@ func runC19(r *vf.Run) {
 		{"quote-after-field", strings.Join(lines[:3], "") + `"x"y,"z","w"` + "\n"},
 		{"blank-before-quoted-field", strings.Join(lines[:4], "") + blankBeforeQuote(len(base.Header)) + strings.Join(lines[4:], "")},
 	}
+	// a malformed record at chosen positions of a longer file (whatever reads ahead or in batches meets the error at the
+	// start, in the middle or at the end of a batch)
+	base2 := gen.MakeCSV(r.RNG("malformed-base2"), 4200, 3, false)
+	lines2 := strings.SplitAfter(base2.Text, "\n")
+	for _, pos := range []int{1, 2, 3, 63, 64, 65, 127, 128, 129, 255, 256, 257, 511, 512, 513, 999, 1000, 1001, 1023, 1024, 1025, 2047, 2048, 2049, 3071, 3072, 3073, 4095, 4096, 4097, 4200} {
+		// data record number pos (the header is line 0; no field of this base spans lines)
+		l := append([]string{}, lines2...)
+		kind := "ragged"
+		if pos%2 == 0 {
+			l[pos] = strings.TrimSuffix(l[pos], "\n") + `,"one field too many"` + "\n"
+		} else {
+			l[pos] = `x"y,` + strings.TrimPrefix(l[pos], `"`)
+			kind = "bare-quote"
+		}
+		malformed = append(malformed, struct{ kind, text string }{fmt.Sprintf("pos-%s-record-%04d", kind, pos), strings.Join(l, "")})
+	}
 	validOut, _ := os.ReadFile(func() string {
 		p := filepath.Join(dir, "pre-valid.updog")
 		_ = ix.Build(ix.WriterMemFile, p, []oracle.Row{{"k": "v"}})
@@ -260,6 +326,9 @@ func runC19(r *vf.Run) {
 				mode := "normal"
 				if big {
 					mode = "big"
+				}
+				if strings.HasPrefix(m.kind, "pos-") && pre != "absent" && !(pre == "present-junk" && len(m.kind)%2 == 0 && big) {
+					continue // the positional sweep mostly with an absent output
 				}
 				cid := fmt.Sprintf("bad/%s/%s/%s", m.kind, mode, pre)
 				badIDs = append(badIDs, cid)
